@@ -7,7 +7,7 @@ from . import common, relmodel, sqlmodel, templates
 from .prog import Env, IllTyped, build, cols_of, fmt, ops_of, pyeval
 from .relmodel import Slot, Tab
 
-LEAVES = {"X": ("a", "b", "v"), "Y": ("a", "b", "v"), "Z": ("a", "d")}
+LEAVES = {"X": ("a", "b", "v"), "Y": ("a", "b", "v"), "Z": ("a", "d"), "I": ()}  # I: the engine's join-identity relation
 LEAFCOLS = dict(LEAVES)
 A, B, V, D = ("ref", "a"), ("ref", "b"), ("ref", "v"), ("ref", "d")
 
@@ -142,12 +142,20 @@ def nested_programs(tier, hi):
         ("chain", ("proj", ("join", X, Z, None), ("a", "b", "v")), Y),
         ("join", ("sel", ("join", X, Z, None), ("gt", A, ("lit", "$k"))), W, ("lt", B, D)),
     ]
+    I = ("leaf", "I")
+    K = ("gt", A, ("lit", "$k"))
+    progs += [("join", I, X, K), ("join", X, I, K), ("join", X, I, None), ("join", I, ("sel", X, K), ("lt", A, B)),
+              ("dedup", ("join", ("proj", X, ("a",)), I, K)), ("join", ("join", X, I, K), Z, None), ("join", X, I, ("plit", False)),
+              ("chain", ("join", X, I, K), Y)]
     return [(p, {"$k": [None, None]} if "$k" in repr(p) else {}, []) for p in progs]
 
 
 def setup_leaves(ctx, env, prog, n):
     env.sql_mode = True
     for name in sorted(leaves_in(prog)):
+        if name == "I":
+            env.add_special_leaf("I", "identity", "sq")
+            continue
         tab, _ = relmodel.leaf_symbolic(name, LEAVES[name], n, ordered=False)
         common.register_table(ctx, tab)
         env.add_sql_leaf(name, LEAVES[name], n, table=tab)
@@ -158,6 +166,9 @@ def concrete_env(prog, bind):
     env.sql_mode = True
     env.bind = dict(bind)
     for name in sorted(leaves_in(prog)):
+        if name == "I":
+            env.add_special_leaf("I", "identity", "sq")
+            continue
         env.add_sql_leaf(name, LEAVES[name], 0, table=Tab([], LEAVES[name], False))
     return env
 
@@ -193,7 +204,7 @@ def run_real_sql(prog, bind, rows, reverse=False):
     env = concrete_env(prog, bind)
     rel = build(prog, env)
     ex = env.engines["sq"].to_executable(rel)
-    got = sqlmodel.run_sqlite(ex, env.metadata, {k: v for k, v in rows.items() if k in env.leaves}, reverse=reverse)
+    got = sqlmodel.run_sqlite(ex, env.metadata, {k: v for k, v in rows.items() if k in env.leaves and k != "I"}, reverse=reverse)
     got = [{k: v for k, v in r.items() if k != "IGNORED"} for r in got]
     return rel, ex, got, env
 
@@ -220,7 +231,7 @@ def validate_model(prog, params):
         rel, ex, got, env = run_real_sql(prog, bind, BATTERY)
     except Exception as e:  # noqa: BLE001 - construction/compile/database failure: not this function's business
         return None
-    db = {k: concrete_tab(BATTERY[k], LEAVES[k]) for k in env.leaves}
+    db = {k: concrete_tab(BATTERY[k], LEAVES[k]) for k in env.leaves if k != "I"}
     try:
         mt = strip_ignored(sqlmodel.select(ex, db))
         mrows = model_rows(mt)
